@@ -4,8 +4,8 @@ import (
 	"bytes"
 	"fmt"
 	"runtime"
-	"sync"
 	"runtime/debug"
+	"sync"
 	"testing"
 
 	"github.com/arloliu/go-secs/v2/secs2"
